@@ -124,6 +124,10 @@ theorem sim_step (o : Ops V) (op : Op V) (hok : OpOK n op) :
   | binaryVoid k in1 in2 out => unfold step; sim_auto
   | scalarVoid k inp arg out => unfold step; sim_auto
   | sum inp => unfold step; exact sim_bind (sim_sumOp o inp) (fun _ _ => sim_pure _ trivial)
+  | opaqueVoid cols cells out vals =>
+    unfold step; exact sim_bind (sim_opaqueVoid o cols cells out vals) (fun _ _ => sim_pure _ trivial)
+  | reverser inp out => unfold step; exact sim_bind (sim_reverser o inp _) (fun _ _ => sim_pure _ trivial)
+  | probe cols cells => unfold step; sim_auto
   | expr rpn => unfold step; exact sim_operateStr o rpn
 
 end TV.Features
